@@ -97,6 +97,9 @@ public:
     bool tryAddNamedAssertion(PTRef, std::string const & name);
     // Try add a unique name for a term already included in the assertions
     bool tryAddTermNameFor(PTRef, std::string const & name);
+    // Names introduced by a command that is rejected in the end are forgotten again
+    std::size_t getTermNamesCount() const { return termNames.size(); }
+    void forgetTermNamesSince(std::size_t count) { termNames.rollbackTo(count); }
 
     void initialize();
 
